@@ -609,6 +609,10 @@ func (o *FilterOptimizer) unionPrefix(l, r *ScanType) *ScanType {
 }
 
 func inRange(start, end, val []byte, isEnd bool) bool {
+	if start != nil && end != nil && val == nil {
+		// An unbounded start (-inf) or end (+inf) is never inside a bounded range
+		return false
+	}
 	if start == nil && end != nil {
 		if val == nil && !isEnd {
 			return true
@@ -686,7 +690,7 @@ func (o *FilterOptimizer) intersectionRange(l, r *ScanType) *ScanType {
 	}
 
 	// start == end just use MGET
-	if bytes.Compare(nstart, nend) == 0 {
+	if nstart != nil && nend != nil && bytes.Compare(nstart, nend) == 0 {
 		return &ScanType{MGET, [][]byte{nstart}}
 	}
 
@@ -740,11 +744,11 @@ func (o *FilterOptimizer) unionRange(l, r *ScanType) *ScanType {
 		nstart = rstart
 		nend = rend
 	} else if !inRange(lstart, lend, rstart, false) && !inRange(lstart, lend, rend, true) {
-		if inRange(lstart, rstart, lend, true) {
+		if lend != nil && rstart != nil && bytes.Compare(lend, rstart) <= 0 {
 			// | LS | LE | RS | RE |
 			nstart = lstart
 			nend = rend
-		} else if inRange(rstart, lstart, rend, true) {
+		} else if rend != nil && lstart != nil && bytes.Compare(rend, lstart) <= 0 {
 			// | RS | RE | LS | LE |
 			nstart = rstart
 			nend = lend
@@ -756,7 +760,7 @@ func (o *FilterOptimizer) unionRange(l, r *ScanType) *ScanType {
 	}
 
 	// start == end just use MGET scan
-	if bytes.Compare(nstart, nend) == 0 {
+	if nstart != nil && nend != nil && bytes.Compare(nstart, nend) == 0 {
 		return &ScanType{MGET, [][]byte{nstart}}
 	}
 	return &ScanType{RANGE, [][]byte{nstart, nend}}
